@@ -7,6 +7,7 @@ import EduceModel.Props.C05
 import EduceModel.Props.C06
 import EduceModel.Props.C07
 import EduceModel.Props.C09
+import EduceModel.Props.C10
 import EduceModel.Props.C11
 /-
   End-to-end theorems: from the attributes of an accepted definition (syn's oracle records, `Attr.DeriveInput`)
@@ -1706,6 +1707,476 @@ theorem dbgScan_of_handler (c : Ctx) (m : TraitMeta) (items : List Item) (hwf : 
           rfl
     rw [this, ok_bind_eq]
     rfl
+
+/-! ## C10 — Into, end to end
+
+Types are compared by their normalised token strings in the code and by opaque ids in the behavioural layer; the bridge
+numbers the strings with an arbitrary *injective* `tnum`. -/
+
+def Inj (g : String → Nat) : Prop := ∀ a b, g a = g b → a = b
+
+theorem beq_tnum {tnum : String → Nat} (h : Inj tnum) (a b : String) : (tnum a == tnum b) = (a == b) := by
+  by_cases e : a = b
+  · subst e; simp
+  · have hn : tnum a ≠ tnum b := fun he => e (h a b he)
+    have h1 : (tnum a == tnum b) = false := by simpa using hn
+    have h2 : (a == b) = false := by simpa using e
+    rw [h1, h2]
+
+theorem markerFor_intoField {tnum : String → Nat} (mnum : String → Nat) (htn : Inj tnum) (t : String)
+    (fa : Field × List (String × Option String)) :
+    Gen.Into.markerFor (tnum t) (intoField tnum mnum fa) = (fa.2.find? fun p => p.1 == t).map fun p => p.2.map mnum := by
+  obtain ⟨f, marks⟩ := fa
+  simp only [Gen.Into.markerFor, intoField]
+  induction marks with
+  | nil => rfl
+  | cons p ps ih =>
+    simp only [List.map_cons, List.find?_cons, beq_tnum htn]
+    cases p.1 == t with
+    | true => rfl
+    | false => exact ih
+
+/-- index and (numbered) method of a selection result -/
+def selPr (mnum : String → Nat) (r : Nat × Field × Option String) : Nat × Option Nat := (r.1, r.2.2.map mnum)
+
+theorem intoLoop_markerLoop {tnum : String → Nat} (mnum : String → Nat) (htn : Inj tnum) (t : String) :
+    ∀ (fas : List (Field × List (String × Option String))) (i : Nat) (acc r : Option (Nat × Field × Option String)),
+      intoLoop t i fas acc = .ok r →
+      Gen.Into.markerLoop (tnum t) i (fas.map (intoField tnum mnum)) (acc.map (selPr mnum)) = (r.map (selPr mnum), false) ∧
+      (∀ j f m, r = some (j, f, m) → acc = some (j, f, m) ∨ (i ≤ j ∧ ∃ marks, fas[j - i]? = some (f, marks))) := by
+  intro fas
+  induction fas with
+  | nil =>
+    intro i acc r h
+    simp only [intoLoop] at h
+    cases h
+    exact ⟨by simp [Gen.Into.markerLoop], fun j f m hr => Or.inl hr⟩
+  | cons fa rest ih =>
+    intro i acc r h
+    obtain ⟨f0, marks⟩ := fa
+    simp only [intoLoop] at h
+    simp only [List.map_cons, Gen.Into.markerLoop, markerFor_intoField mnum htn]
+    cases hf : marks.find? (fun p => p.1 == t) with
+    | none =>
+      simp only [hf] at h
+      obtain ⟨h1, h2⟩ := ih (i + 1) acc r h
+      simp only [Option.map_none]
+      refine ⟨h1, ?_⟩
+      intro j f m hr
+      rcases h2 j f m hr with ha | ⟨hle, marks', hget⟩
+      · exact Or.inl ha
+      · refine Or.inr ⟨by omega, marks', ?_⟩
+        have : j - i = (j - (i + 1)) + 1 := by omega
+        rw [this]; simpa using hget
+    | some p =>
+      simp only [hf] at h
+      cases acc with
+      | some a => cases h
+      | none =>
+        simp only at h
+        obtain ⟨h1, h2⟩ := ih (i + 1) (some (i, f0, p.2)) r h
+        simp only [Option.map_some, Option.map_none]
+        refine ⟨by simpa [selPr] using h1, ?_⟩
+        intro j f m hr
+        rcases h2 j f m hr with ha | ⟨hle, marks', hget⟩
+        · cases ha
+          exact Or.inr ⟨Nat.le_refl _, marks, by simp⟩
+        · refine Or.inr ⟨by omega, marks', ?_⟩
+          have : j - i = (j - (i + 1)) + 1 := by omega
+          rw [this]; simpa using hget
+
+theorem intoSame_sameTypeLoop {tnum : String → Nat} (mnum : String → Nat) (htn : Inj tnum) (t : String) :
+    ∀ (fas : List (Field × List (String × Option String))) (i : Nat) (acc : Option (Nat × Field × Option String)),
+      Gen.Into.sameTypeLoop (tnum t) i (fas.map (intoField tnum mnum)) (acc.map (·.1)) = (intoSame t i fas acc).map (·.1) ∧
+      (∀ j f m, intoSame t i fas acc = some (j, f, m) → acc = some (j, f, m) ∨ (i ≤ j ∧ m = none ∧ ∃ marks, fas[j - i]? = some (f, marks))) := by
+  intro fas
+  induction fas with
+  | nil => intro i acc; exact ⟨by simp [Gen.Into.sameTypeLoop, intoSame], fun j f m hr => Or.inl (by simpa [intoSame] using hr)⟩
+  | cons fa rest ih =>
+    intro i acc
+    obtain ⟨f0, marks⟩ := fa
+    simp only [List.map_cons, Gen.Into.sameTypeLoop, intoSame]
+    have hty : (intoField tnum mnum (f0, marks)).ty = tnum f0.hashTy := rfl
+    rw [hty]
+    have hdec : (tnum f0.hashTy = tnum t) ↔ (f0.hashTy == t) = true := by
+      constructor
+      · intro e; simpa using htn _ _ e
+      · intro e; have : f0.hashTy = t := by simpa using e
+        rw [this]
+    by_cases hc : (f0.hashTy == t) = true
+    · simp only [hc, if_true, hdec.mpr hc]
+      cases acc with
+      | some a => exact ⟨by simp, fun j f m hr => by cases hr⟩
+      | none =>
+        simp only [Option.map_none]
+        obtain ⟨h1, h2⟩ := ih (i + 1) (some (i, f0, none))
+        refine ⟨by simpa using h1, ?_⟩
+        intro j f m hr
+        rcases h2 j f m hr with ha | ⟨hle, hm, marks', hget⟩
+        · cases ha
+          exact Or.inr ⟨Nat.le_refl _, rfl, marks, by simp⟩
+        · refine Or.inr ⟨by omega, hm, marks', ?_⟩
+          have : j - i = (j - (i + 1)) + 1 := by omega
+          rw [this]; simpa using hget
+    · have hc' : ¬ tnum f0.hashTy = tnum t := fun e => hc (hdec.mp e)
+      simp only [hc, hc', if_false, Bool.false_eq_true]
+      obtain ⟨h1, h2⟩ := ih (i + 1) acc
+      refine ⟨h1, ?_⟩
+      intro j f m hr
+      rcases h2 j f m hr with ha | ⟨hle, hm, marks', hget⟩
+      · exact Or.inl ha
+      · refine Or.inr ⟨by omega, hm, marks', ?_⟩
+        have : j - i = (j - (i + 1)) + 1 := by omega
+        rw [this]; simpa using hget
+
+/-- **The two selection procedures agree.** When the attribute layer's `intoSelect` designates field `i` (with method `m`)
+    for target `t`, the behavioural layer's `select`, run on the markers and normalised types so read, designates the same
+    field with the same method. -/
+theorem intoSelect_select {tnum : String → Nat} (mnum : String → Nat) (htn : Inj tnum) (t : String)
+    (fas : List (Field × List (String × Option String))) (i : Nat) (f : Field) (m : Option String)
+    (h : intoSelect t fas = .ok (i, f, m)) :
+    Gen.Into.select (tnum t) (fas.map (intoField tnum mnum)) = .ok (i, m.map mnum) ∧ ∃ marks, fas[i]? = some (f, marks) := by
+  unfold intoSelect at h
+  split at h
+  · rename_i f0 marks
+    cases h
+    refine ⟨?_, marks, by simp⟩
+    simp only [List.map_cons, List.map_nil, Gen.Into.select, markerFor_intoField mnum htn]
+    cases marks.find? (fun p => p.1 == t) <;> rfl
+  · rename_i hne
+    have hsel : Gen.Into.select (tnum t) (fas.map (intoField tnum mnum))
+        = (match Gen.Into.markerLoop (tnum t) 0 (fas.map (intoField tnum mnum)) none with
+           | (_, true) => .error (.multipleFields (tnum t))
+           | (some r, false) => .ok r
+           | (none, false) =>
+             match Gen.Into.sameTypeLoop (tnum t) 0 (fas.map (intoField tnum mnum)) none with
+             | some i => .ok (i, none)
+             | none => .error (.noField (tnum t))) := by
+      unfold Gen.Into.select
+      split
+      · rename_i c hc
+        match fas, hc with
+        | [(f0, marks)], _ => exact absurd rfl (hne f0 marks)
+      · rfl
+    rw [hsel]
+    cases hl : intoLoop t 0 fas none with
+    | diag e => simp [hl] at h
+    | panic s => simp [hl] at h
+    | ok r =>
+      simp only [hl] at h
+      obtain ⟨h1, h2⟩ := intoLoop_markerLoop mnum htn t fas 0 none r hl
+      simp only [Option.map_none] at h1
+      rw [h1]
+      cases r with
+      | some q =>
+        simp only at h
+        cases h
+        refine ⟨rfl, ?_⟩
+        rcases h2 i f m rfl with ha | ⟨_, marks, hget⟩
+        · cases ha
+        · exact ⟨marks, by simpa using hget⟩
+      | none =>
+        simp only [Option.map_none] at h ⊢
+        obtain ⟨s1, s2⟩ := intoSame_sameTypeLoop mnum htn t fas 0 none
+        simp only [Option.map_none] at s1
+        rw [s1]
+        cases hs : intoSame t 0 fas none with
+        | none => simp [hs] at h
+        | some q =>
+          simp only [hs] at h
+          cases h
+          rcases s2 i f m hs with ha | ⟨_, hm, marks, hget⟩
+          · cases ha
+          · subst hm
+            exact ⟨rfl, marks, by simpa using hget⟩
+
+theorem intoScan_spec (c : Ctx) (targets : List (String × Bound)) (vs : IntoScan) (h : intoScan c targets = .ok vs) :
+    vs.map Prod.fst = c.d.variants ∧
+    ∀ (k : Nat) (v : Variant) (fas : List (Field × List (String × Option String))), vs[k]? = some (v, fas) →
+      c.d.variants[k]? = some v ∧ fas.map Prod.fst = v.fields := by
+  unfold intoScan at h
+  have h2 := mapRes_ok_forall _ _ _ h
+  have key : ∀ (x : Variant) (y : Variant × List (Field × List (String × Option String))),
+      ((do
+        if c.d.kind == .enum then
+          let vm ← collectAttrs c.F c.traits .into x.attrs []
+          if !vm.isEmpty then let _ ← intoTypeFromMetas false vm []
+        let fas ← mapRes (fun f => do
+            let fm ← collectAttrs c.F c.traits .into f.attrs []
+            let marks ← if fm.isEmpty then pure [] else intoFieldFromMetas true fm []
+            match marks.find? fun p => !(targets.any fun t => t.1 == p.1) with
+            | some _ => Res.diag .noIntoImpl
+            | none => pure (f, marks)) x.fields
+        pure (x, fas)) : Res (Variant × List (Field × List (String × Option String)))) = .ok y →
+      y.1 = x ∧ y.2.map Prod.fst = x.fields := by
+    intro x y hxy
+    dsimp only at hxy
+    have fin : ∀ (r : Res (Variant × List (Field × List (String × Option String)))),
+        r = (do
+          let fas ← mapRes (fun f => do
+              let fm ← collectAttrs c.F c.traits .into f.attrs []
+              let marks ← if fm.isEmpty then pure [] else intoFieldFromMetas true fm []
+              match marks.find? fun p => !(targets.any fun t => t.1 == p.1) with
+              | some _ => Res.diag .noIntoImpl
+              | none => pure (f, marks)) x.fields
+          pure (x, fas)) → r = .ok y → y.1 = x ∧ y.2.map Prod.fst = x.fields := by
+      intro r hr hy
+      rw [hr] at hy
+      obtain ⟨fas, hfas, hp⟩ := bind_ok_inv hy
+      cases hp
+      refine ⟨rfl, ?_⟩
+      have hf2 := mapRes_ok_forall _ _ _ hfas
+      apply forall2_map_eq Prod.fst _ _ _ hf2
+      intro f q hq
+      obtain ⟨fm, _, hq⟩ := bind_ok_inv hq
+      dsimp only at hq
+      split at hq
+      · obtain ⟨marks, _, hq⟩ := bind_ok_inv hq
+        split at hq
+        · cases hq
+        · cases hq; rfl
+      · obtain ⟨marks, _, hq⟩ := bind_ok_inv hq
+        split at hq
+        · cases hq
+        · cases hq; rfl
+    split at hxy
+    · obtain ⟨vm, _, hxy⟩ := bind_ok_inv hxy
+      split at hxy
+      · obtain ⟨_, _, hxy⟩ := bind_ok_inv hxy
+        exact fin _ rfl hxy
+      · exact fin _ rfl hxy
+    · exact fin _ rfl hxy
+  constructor
+  · exact forall2_map_eq Prod.fst (fun x y hxy => (key x y hxy).1) _ _ h2
+  · intro k v fas hk
+    obtain ⟨x, hx, hxy⟩ := forall2_getElem h2 k (v, fas) hk
+    obtain ⟨e1, e2⟩ := key x (v, fas) hxy
+    simp only at e1 e2
+    subst e1
+    exact ⟨hx, e2⟩
+
+theorem intoVariant_WF (tnum mnum : String → Nat) (v : Variant) (fas : List (Field × List (String × Option String)))
+    (hv : VariantWF v) (hf : fas.map Prod.fst = v.fields) : (intoVariant tnum mnum (v, fas)).WF := by
+  obtain ⟨h1, h2⟩ := hv
+  constructor
+  · intro hs
+    have : (intoVariant tnum mnum (v, fas)).fields.map IntoField.name = (v.fields.map fname).map identOf := by
+      simp [intoVariant, intoField, ← hf, List.map_map, Function.comp_def]
+    rw [this]
+    exact nodup_map_identOf _ (h1 hs)
+  · intro hs
+    have : fas = [] := by
+      have := h2 hs
+      rw [this] at hf
+      simpa using hf
+    simp [intoVariant, this]
+
+theorem into_arms_ok (t : Nat) : ∀ (vs : List IntoVariant) (k0 : Nat),
+    (∀ (k : Nat) (v : IntoVariant), vs[k]? = some v → ∃ a, Gen.Into.arm t (k0 + k) v = .ok a) →
+    ∃ as, Gen.Into.arms t k0 vs = .ok as ∧ as.length = vs.length := by
+  intro vs
+  induction vs with
+  | nil => intro k0 _; exact ⟨[], rfl, rfl⟩
+  | cons v vs ih =>
+    intro k0 h
+    obtain ⟨a, ha⟩ := h 0 v (by simp)
+    obtain ⟨as, has, hl⟩ := ih (k0 + 1) (fun k w hk => by
+      obtain ⟨a', ha'⟩ := h (k + 1) w (by simpa using hk)
+      exact ⟨a', by rw [show k0 + 1 + k = k0 + (k + 1) by omega]; exact ha'⟩)
+    simp only [Nat.add_zero] at ha
+    exact ⟨a :: as, by simp [Gen.Into.arms, ha, has], by simp [hl]⟩
+
+/-- One accepted target: the behavioural generator produces the impl for it. -/
+theorem into_item_of_chosen {tnum : String → Nat} (mnum : String → Nat) (htn : Inj tnum) (d : DeriveInput) (hwf : InputWF d)
+    (hk : d.kind ≠ .union) (vs : IntoScan) (hmap : vs.map Prod.fst = d.variants) (t : String)
+    (chosen : List (Variant × Nat × Field × Option String))
+    (hch : mapRes (fun (p : Variant × List (Field × List (String × Option String))) => do
+            if d.kind == .enum && p.1.shape == .unit then Res.diag .unitVariant
+            else do
+              let (i, f, meth) ← intoSelect t p.2
+              pure (p.1, i, f, meth)) vs = .ok chosen)
+    (hne : chosen.isEmpty = false) :
+    ∃ it, Gen.Into.item (intoType tnum mnum d.kind vs) (tnum t) = .ok it := by
+  have h2 := mapRes_ok_forall _ _ _ hch
+  have key : ∀ (p : Variant × List (Field × List (String × Option String))) (y : Variant × Nat × Field × Option String),
+      ((do
+        if d.kind == .enum && p.1.shape == .unit then Res.diag .unitVariant
+        else do
+          let (i, f, meth) ← intoSelect t p.2
+          pure (p.1, i, f, meth)) : Res (Variant × Nat × Field × Option String)) = .ok y →
+      (d.kind == .enum && p.1.shape == .unit) = false ∧ intoSelect t p.2 = .ok (y.2.1, y.2.2.1, y.2.2.2) := by
+    intro p y hy
+    split at hy
+    · cases hy
+    · rename_i hc
+      obtain ⟨q, hq, hp⟩ := bind_ok_inv hy
+      obtain ⟨i, f, meth⟩ := q
+      cases hp
+      exact ⟨by simpa using hc, hq⟩
+  have hlen : chosen.length = vs.length := mapRes_length _ _ _ hch
+  have hsel : ∀ (k : Nat) (p : Variant × List (Field × List (String × Option String))), vs[k]? = some p →
+      (d.kind == .enum && p.1.shape == .unit) = false ∧ ∃ i f meth, intoSelect t p.2 = .ok (i, f, meth) := by
+    intro k p hp
+    have hl : k < chosen.length := by rw [hlen]; exact (List.getElem?_eq_some_iff.mp hp).1
+    have hy := List.getElem?_eq_getElem hl
+    obtain ⟨x, hx, hxy⟩ := forall2_getElem h2 k _ hy
+    rw [hp] at hx; cases hx
+    obtain ⟨e1, e2⟩ := key p _ hxy
+    exact ⟨e1, _, _, _, e2⟩
+  have hvs : vs ≠ [] := by
+    intro he
+    rw [he] at hlen
+    have : chosen = [] := List.eq_nil_of_length_eq_zero (by simpa using hlen)
+    rw [this] at hne; cases hne
+  unfold intoType
+  cases hkind : d.kind with
+  | union => exact absurd hkind hk
+  | struct =>
+    obtain ⟨v, hv⟩ := hwf.2 (by simp [hkind])
+    rw [hv] at hmap
+    match vs, hmap, hvs with
+    | [(v', fas)], hm, _ =>
+      obtain ⟨_, i, f, meth, hs⟩ := hsel 0 (v', fas) rfl
+      obtain ⟨g1, marks, g2⟩ := intoSelect_select mnum htn t fas i f meth hs
+      simp only [List.map_cons, List.map_nil, List.headD_cons, Gen.Into.item, intoVariant]
+      rw [g1]
+      have : (fas.map (intoField tnum mnum))[i]? = some (intoField tnum mnum (f, marks)) := by simp [g2]
+      simp only [this]
+      exact ⟨_, rfl⟩
+  | enum =>
+    simp only
+    have harm : ∀ (k : Nat) (w : IntoVariant), (vs.map (intoVariant tnum mnum))[k]? = some w →
+        ∃ a, Gen.Into.arm (tnum t) (0 + k) w = .ok a := by
+      intro k w hw
+      simp only [List.getElem?_map] at hw
+      cases hp : vs[k]? with
+      | none => simp [hp] at hw
+      | some p =>
+        simp only [hp, Option.map_some, Option.some.injEq] at hw
+        subst hw
+        obtain ⟨hnu, i, f, meth, hs⟩ := hsel k p hp
+        obtain ⟨g1, marks, g2⟩ := intoSelect_select mnum htn t p.2 i f meth hs
+        have hshape : (intoVariant tnum mnum p).shape ≠ .unit := by
+          intro hu
+          have : p.1.shape = .unit := hu
+          simp [hkind, this] at hnu
+        unfold Gen.Into.arm
+        simp only [hshape, if_false]
+        have hsel' : Gen.Into.select (tnum t) (intoVariant tnum mnum p).fields = .ok (i, meth.map mnum) := g1
+        rw [hsel']
+        have : (intoVariant tnum mnum p).fields[i]? = some (intoField tnum mnum (f, marks)) := by simp [intoVariant, g2]
+        simp only [this]
+        split <;> exact ⟨_, rfl⟩
+    obtain ⟨as, has, hl⟩ := into_arms_ok (tnum t) _ 0 harm
+    simp only [Gen.Into.item, has]
+    cases as with
+    | nil =>
+      simp only [List.length_nil, List.length_map] at hl
+      exact absurd (List.eq_nil_of_length_eq_zero hl.symm) hvs
+    | cons a as' => exact ⟨_, rfl⟩
+
+theorem intoType_WF (tnum mnum : String → Nat) (c : Ctx) (targets : List (String × Bound)) (vs : IntoScan)
+    (hwf : InputWF c.d) (h : intoScan c targets = .ok vs) : (intoType tnum mnum c.d.kind vs).WF := by
+  obtain ⟨hmap, hspec⟩ := intoScan_spec c targets vs h
+  have hall : ∀ p ∈ vs, (intoVariant tnum mnum p).WF := by
+    intro p hp
+    obtain ⟨k, hk⟩ := List.getElem?_of_mem hp
+    obtain ⟨v, fas⟩ := p
+    obtain ⟨hv, hf⟩ := hspec k v fas hk
+    exact intoVariant_WF tnum mnum v fas (hwf.1 v (List.mem_of_getElem? hv)) hf
+  unfold intoType IntoType.WF
+  cases hkind : c.d.kind with
+  | enum =>
+    simp only [Sem.variantsOfInto]
+    intro w hw
+    obtain ⟨p, hp, rfl⟩ := List.mem_map.mp hw
+    exact hall p hp
+  | struct =>
+    simp only [Sem.variantsOfInto, List.mem_singleton]
+    intro w hw; subst hw
+    cases vs with
+    | nil => simp [IntoVariant.WF]
+    | cons p ps => simpa using hall p (by simp)
+  | union =>
+    simp only [Sem.variantsOfInto, List.mem_singleton]
+    intro w hw; subst hw
+    cases vs with
+    | nil => simp [IntoVariant.WF]
+    | cons p ps => simpa using hall p (by simp)
+
+/-- The conclusion of the Into end-to-end theorem, for the metas `ms` of the type and the emitted `items`. -/
+def IntoEndToEnd (c : Ctx) (ms : List TraitMeta) (items : List Item) : Prop :=
+    ∃ targets vs, intoTypeFromMetas true ms [] = .ok targets ∧ intoScan c targets = .ok vs ∧
+      items.length = (targets.foldl (fun acc t => sortedInsert t acc) []).length ∧
+      ∀ (j : Nat) (tb : String × Bound) (item_ : Item),
+        (targets.foldl (fun acc t => sortedInsert t acc) [])[j]? = some tb → items[j]? = some item_ →
+        item_.trait = "Into<" ++ noSpace tb.1 ++ ">" ∧
+        ∀ (tnum mnum : String → Nat), Inj tnum →
+          ∃ it, Gen.Into.item (intoType tnum mnum c.d.kind vs) (tnum tb.1) = .ok it ∧
+            ∀ {V : Type} (ops : IntoOps V) (a : Val V), (intoType tnum mnum c.d.kind vs).Inhabits a →
+              Sem.evalInto ops (intoType tnum mnum c.d.kind vs) it a = Spec.into ops (intoType tnum mnum c.d.kind vs) (tnum tb.1) a ∧
+              (Spec.into ops (intoType tnum mnum c.d.kind vs) (tnum tb.1) a).isSome = true
+
+/-- **C10 end to end.** The Into handler accepted a struct or enum. Then the requested targets were read from the type's
+    `Into(..)` attributes, the markers of every field from that field's own attributes; one item is emitted per target, in the
+    order of the sorted target map; and for each target `T` — for every injective numbering of the normalised type strings and
+    every numbering of the methods — the behavioural generator produces the impl for `T`, whose `into()` returns, for every
+    value, the field designated for `T` in the value's variant (marked, else sole, else the unique field of type `T`), through
+    the marker's method, unchanged when its type is already `T`, converted with `Into<T>` otherwise. -/
+theorem into_handler_end_to_end (c : Ctx) (m0 : TraitMeta) (rest : List TraitMeta) (items : List Item) (hwf : InputWF c.d)
+    (hk : c.d.kind ≠ .union) (h : intoHandler c (m0 :: rest) = .ok items) : IntoEndToEnd c (m0 :: rest) items := by
+  unfold intoHandler at h
+  dsimp only at h
+  have fin : ∀ (r : Res (List Item)),
+      r = (do
+        let targets ← intoTypeFromMetas true (m0 :: rest) []
+        let vs ← intoScan c targets
+        let ordered := targets.foldl (fun acc t => sortedInsert t acc) []
+        mapRes (fun (tb : String × Bound) => do
+            let t := tb.1
+            let chosen ← mapRes (fun (v, fas) => do
+                if c.d.kind == .enum && v.shape == .unit then Res.diag .unitVariant
+                else do
+                  let (i, f, meth) ← intoSelect t fas
+                  pure (v, i, f, meth)) vs
+            if chosen.isEmpty then Res.diag .noIntoField
+            else
+              let types := chosen.filterMap fun (_, _, f, meth) => if meth.isSome || f.hashTy == t then none else some f.ty
+              pure { trait := "Into<" ++ noSpace t ++ ">",
+                     preds := boundPreds tb.2 c.d.generics ("::core::convert::Into<" ++ noSpace t ++ ">") types [],
+                     variants := chosen.map fun (v, i, f, meth) =>
+                       (v.name, v.shape, [toString i, showOpt meth, showBool (f.hashTy == t)], []) }) ordered) →
+      r = .ok items → IntoEndToEnd c (m0 :: rest) items := by
+    intro r hr hitems
+    rw [hr] at hitems
+    obtain ⟨targets, htargets, hitems⟩ := bind_ok_inv hitems
+    obtain ⟨vs, hvs, hitems⟩ := bind_ok_inv hitems
+    dsimp only at hitems
+    have hlen := mapRes_length _ _ _ hitems
+    have h2 := mapRes_ok_forall _ _ _ hitems
+    refine ⟨targets, vs, htargets, hvs, hlen, ?_⟩
+    intro j tb item_ htb hitem
+    obtain ⟨x, hx, hxy⟩ := forall2_getElem h2 j item_ hitem
+    rw [htb] at hx; cases hx
+    obtain ⟨chosen, hch, hxy⟩ := bind_ok_inv hxy
+    split at hxy
+    · cases hxy
+    · rename_i hne
+      simp only [pure] at hxy
+      cases hxy
+      refine ⟨rfl, ?_⟩
+      intro tnum mnum htn
+      obtain ⟨hmap, _⟩ := intoScan_spec c targets vs hvs
+      obtain ⟨it, hit⟩ := into_item_of_chosen mnum htn c.d hwf hk vs hmap tb.1 chosen hch (by simpa using hne)
+      refine ⟨it, hit, ?_⟩
+      intro V ops a ha
+      have hw := intoType_WF tnum mnum c targets vs hwf hvs
+      obtain ⟨e1, e2, _⟩ := into_correct ops _ hw (tnum tb.1) it hit a ha
+      exact ⟨e1, e2⟩
+  split at h
+  · rename_i heq
+    exact absurd heq hk
+  · exact fin _ rfl h
 
 /-! ## Non-vacuity: a concrete definition, as syn's records, through the whole chain
 
